@@ -304,12 +304,39 @@ def span_details(v):
     return tuple(out)
 
 
+# values created by inline Python during a parse (list / dict / set displays, constructor calls) and
+# mutated by later inline Python of the same parse: each evaluation must get its own object
+STATEFUL = '''
+start = (Defs | Coll | Tally | Uniq)*
+Defs = "def" >> (let names = `{}` in DefBody(names))
+DefBody(tbl) = [(Word |> `lambda w: tbl.setdefault(w, tbl.__len__())`)+, ";" >> `sorted(tbl.items())`]
+Coll = "col" >> Collect(`[]`)
+Collect(acc) = [(Word |> `lambda w: acc.append(w)`)*, ";" >> `tuple(acc)`]
+Tally = "tal" >> (let box = `[0]` in [(Word |> `lambda w: box.__setitem__(0, box[0] + 1)`)*, ";" >> `box[0]`])
+Uniq = "unq" >> (let seen = `set()` in [(Word where `lambda w: w not in seen and not seen.add(w)`)*, ";"])
+Word = /[a-z]/
+ignore / +/
+'''
+
+
+def stateful_texts(rng, n):
+    heads = ['def', 'col', 'tal', 'unq']
+    out = []
+    for _ in range(n):
+        parts = []
+        for _ in range(rng.randint(1, 3)):
+            parts.append('%s %s %s' % (rng.choice(heads), ' '.join(rng.choice('abc') for _ in range(rng.randint(0, 4))), rng.choice([';', ';', ';', ''])))
+        out.append(' '.join(parts))
+    return out
+
+
 def targets(rec, quick):
     rng = rec.rng
     n = 40 if quick else 150
     ts = [Target(HOOKED, hooked_texts(rng, n), ['Expr', 'Stmt', 'Term'], 'hooked'),
           Target(MEMO_HEAVY, memo_texts(rng, n), ['E', 'T'], 'memo'),
-          Target(BYTES_G, bytes_texts(rng, n // 2), ['Rec'], 'bytes')]
+          Target(BYTES_G, bytes_texts(rng, n // 2), ['Rec'], 'bytes'),
+          Target(STATEFUL, stateful_texts(rng, n), ['Defs', 'Coll'], 'stateful')]
     ft = family_texts(rng, 30 if quick else 100)
     base_t = FamilyTarget('base', ft)
     ts.append(base_t)
